@@ -8,6 +8,7 @@ import (
 	"strings"
 	"sync"
 	"sync/atomic"
+	"syscall"
 	"time"
 
 	"github.com/free5gc/go-upf/internal/report"
@@ -145,6 +146,17 @@ func c18Run(res *vh.Result, ci int, c c18Cfg, rng *vh.Rng) {
 		k.Latency = func(r *vh.KReq) time.Duration {
 			if atomic.AddInt64(&n, 1)%5 == 0 {
 				return lat
+			}
+			return 0
+		}
+	}
+	if c.Scenario == "failing-slow-tick-then-reassociate" {
+		// the periodic query is slow and fails (a URR vanished meanwhile): while it is in progress the bulk removal
+		// fills the periodic server's event queue
+		k.FailCmd = map[uint8]syscall.Errno{vh.KCmdGetMul: syscall.ENOENT}
+		k.Latency = func(r *vh.KReq) time.Duration {
+			if r.Cmd == vh.KCmdGetMul {
+				return 400 * time.Millisecond
 			}
 			return 0
 		}
@@ -352,6 +364,12 @@ func c18Run(res *vh.Result, ci int, c c18Cfg, rng *vh.Rng) {
 		}
 	}
 	switch c.Scenario {
+	case "failing-slow-tick-then-reassociate":
+		what = "re-associating a node with many sessions while a slow periodic query is about to fail"
+		injectTick()
+		time.Sleep(50 * time.Millisecond) // the query is now in progress in the simulated kernel
+		seq := owner.NextSeq()
+		requests = append(requests, reqAsync(owner, vh.BuildMsg(vh.MAssocReq, nil, seq, vh.NodeIDv4(owner.IP), vh.RecoveryTS(2)), seq))
 	case "tick-then-reassociate":
 		what = "re-associating a node with many sessions right after a periodic tick"
 		injectTick()
@@ -473,6 +491,7 @@ func runC18(res *vh.Result) {
 		{Scenario: "multicast-burst", Sessions: 4, URRs: 1, Periods: 1, Burst: 600, KLatUs: 500},
 		{Scenario: "direct-burst", Sessions: 4, URRs: 1, Periods: 1, Burst: 2000, Producers: 8},
 		{Scenario: "mixed", Sessions: 260, URRs: 2, Periods: 2, Burst: 600, Producers: 4, KLatUs: 200},
+		{Scenario: "failing-slow-tick-then-reassociate", Sessions: 300, URRs: 2, Periods: 1},
 	}
 	n := vh.Tiered(len(grid), 300)
 	res.Cases(n, func(i int, rng *vh.Rng) {
@@ -480,7 +499,7 @@ func runC18(res *vh.Result) {
 		if i < len(grid) {
 			c = grid[i]
 		} else {
-			c = c18Cfg{Scenario: []string{"tick-then-reassociate", "tick-then-delete-storm", "multicast-burst", "direct-burst", "mixed"}[rng.Intn(5)],
+			c = c18Cfg{Scenario: []string{"tick-then-reassociate", "tick-then-delete-storm", "multicast-burst", "direct-burst", "mixed", "failing-slow-tick-then-reassociate"}[rng.Intn(6)],
 				Sessions: []int{10, 50, 100, 130, 200, 260, 300, 700, 1500}[rng.Intn(9)], URRs: rng.Range(1, 3), Periods: rng.Range(1, 3),
 				Burst: []int{100, 128, 129, 300, 600, 2000}[rng.Intn(6)], Producers: rng.Range(1, 8), KLatUs: []int{0, 0, 100, 1000}[rng.Intn(4)]}
 			if c.Sessions >= 700 {
